@@ -1,6 +1,6 @@
 (* PV.C10.Examples — non-vacuity: concrete non-trivial inputs meeting the hypotheses of the theorems. *)
 From Coq Require Import QArith List Bool PArith Arith.
-From PV Require Import Base.PyData Base.Expr Base.Interp Base.Stmts C10.Model C10.Refuted.
+From PV Require Import Base.PyData Base.Expr Base.Interp Base.Stmts C10.Model C10.Refuted C10.ModelUnused C10.ProofsOde.
 Import ListNotations.
 
 (* T1=T; A=T1*2; B=7; Y=A : removing B (index 2) is safe and removes something *)
@@ -35,3 +35,75 @@ Example subs_guard_nonvacuous :
   g_subs_leaf [(sT, Add (Sym sC) (Num 1))] ex_prog = true /\
   subs_stmts [(sT, Add (Sym sC) (Num 1))] ex_prog <> ex_prog.
 Proof. split; [vm_compute; reflexivity | vm_compute; discriminate]. Qed.
+
+(* ---- remove_unused_parameters_and_rvs: A = TH1 + ETA1; Y = A + EPS with a 2x2 block (ETA1, ETA2), a single
+   EPS, parameters TH1, TH2 (unused, fixed to 0), TH3 (unused), the block's and EPS's variance parameters:
+   ETA2 is unjoined and removed together with OM21, OM22 and TH3; TH2 stays (fixed to 0). *)
+Definition uTH1 : id := 11%positive. Definition uTH2 : id := 12%positive. Definition uTH3 : id := 13%positive.
+Definition uETA1 : id := 14%positive. Definition uETA2 : id := 15%positive. Definition uEPS : id := 16%positive.
+Definition uO11 : id := 17%positive. Definition uO21 : id := 18%positive. Definition uO22 : id := 19%positive.
+Definition uSIG : id := 20%positive.
+Definition u_prog : list stmt :=
+  [Assign sA (Add (Sym uTH1) (Sym uETA1)); Assign sY (Add (Sym sA) (Sym uEPS))].
+Definition u_rvs_ex : list dist :=
+  [Joint [mkRow uETA1 [] [[uO11]; [uO21]]; mkRow uETA2 [] [[uO21]; [uO22]]]; Normal uEPS [] [uSIG]].
+Definition u_params_ex : list param :=
+  [mkParam uTH1 false 1; mkParam uTH2 true 0; mkParam uTH3 false 1; mkParam uO11 false 1;
+   mkParam uO21 false 1; mkParam uO22 false 1; mkParam uSIG false 1].
+
+Example unused_example :
+  new_rvs u_prog u_rvs_ex = [Normal uETA1 [] [uO11]; Normal uEPS [] [uSIG]] /\
+  map p_sym (new_params u_prog u_params_ex u_rvs_ex) = [uTH1; uTH2; uO11; uSIG] /\
+  removed_names u_prog u_params_ex u_rvs_ex = [uTH3; uO21; uO22; uETA2] /\
+  wf_rvs u_rvs_ex = true.
+Proof. repeat split; vm_compute; reflexivity. Qed.
+
+(* the reason predicate is satisfiable in both ways: by name (ETA1) and by a variance parameter that a
+   statement mentions (ETA2 when OM22 occurs in a statement: the code keeps the whole block then) *)
+Example rv_reason_example :
+  rv_reason (stmts_free u_prog) (hd (Normal xH [] []) u_rvs_ex) uETA1 = true /\
+  rv_reason (stmts_free u_prog) (hd (Normal xH [] []) u_rvs_ex) uETA2 = false /\
+  rvs_names (new_rvs (u_prog ++ [Assign sB (Sym uO22)]) u_rvs_ex) = [uETA1; uETA2; uEPS].
+Proof. repeat split; vm_compute; reflexivity. Qed.
+
+(* hypotheses of rv_with_reason_kept: a well-formed collection and a reason that is only a covariance
+   parameter (B = OM21 is the only mention): ETA2 has a reason and the whole block stays *)
+Example rv_with_reason_kept_nonvacuous :
+  wf_rvs u_rvs_ex = true /\
+  rv_reason (stmts_free [Assign sB (Sym uO21)]) (hd (Normal xH [] []) u_rvs_ex) uETA2 = true /\
+  rvs_names (new_rvs [Assign sB (Sym uO21)] u_rvs_ex) = [uETA1; uETA2] /\
+  wf_rvs [Joint [mkRow uETA1 [] [[uO11]; [uO21]]; mkRow uETA2 [] [[uO22]; [uO22]]]] = false.
+Proof. repeat split; vm_compute; reflexivity. Qed.
+
+(* ---- dependencies through the ODE system: X = T*TH1; system with amount C reading X and U;
+   B = C / V (after the system); X = 0 (shadowing after the system); Y = B + X *)
+Definition ode_prog : list stmt :=
+  [Assign sX (Mul (Sym sT) (Sym uTH1)); Ode [sC] [sX; sS];
+   Assign sB (Div (Sym sC) (Sym uTH2)); Assign sX (Num 0); Assign sY (Add (Sym sB) (Sym sX))].
+Example dependencies_through_ode_example :
+  match dependencies ode_prog sY with Ok D => setp_eqb D [sT; uTH1; sS; uTH2] | _ => false end = true /\
+  match dependencies (firstn 3 ode_prog) sB with Ok D => memp sS D && memp sT D | _ => false end = true.
+Proof. split; vm_compute; reflexivity. Qed.
+
+(* the locality hypothesis of dependencies_sound_env_oracle is satisfiable (by the oracle the
+   correspondence checks use) *)
+Example env_oracle_hypothesis_satisfiable :
+  forall amts rh a r r', agree_on rh r r' -> std_odeg amts rh a r = std_odeg amts rh a r'.
+Proof. exact std_odeg_local. Qed.
+
+(* ---- reassign / find_assignment at the level of values: A = T; B = A; A = B + 1; Y = A + B *)
+Definition re_prog : list stmt :=
+  [Assign sA (Sym sT); Assign sB (Sym sA); Assign sA (Add (Sym sB) (Num 1)); Assign sY (Add (Sym sA) (Sym sB))].
+Example reassign_value_example :
+  g_not_overwritten re_prog sA = true /\ find_assignment_index re_prog sA = Some 2%nat /\
+  before_last_assignment re_prog sA = [Assign sB (Sym sA)] /\
+  reassign_taint re_prog sA = [sY; sA; sB; sA] /\
+  reassign_taint re_prog sY = [sY] /\
+  g_not_overwritten (re_prog ++ [Ode [sA] []]) sA = false.
+Proof. repeat split; vm_compute; reflexivity. Qed.
+
+Example rename_guard_nonvacuous :
+  g_rename sA sC re_prog = true /\ g_rename sA sB re_prog = false /\
+  subs_stmts [(sA, Sym sC)] re_prog =
+  [Assign sC (Sym sT); Assign sB (Sym sC); Assign sC (Add (Sym sB) (Num 1)); Assign sY (Add (Sym sC) (Sym sB))].
+Proof. repeat split; vm_compute; reflexivity. Qed.
